@@ -12,7 +12,7 @@ let () =
         let toks = Array.of_list (split_ws line) in
         let pos = ref 0 in
         let next () = let t = toks.(!pos) in incr pos; t in
-        let kind = (match int_of_string (next ()) with 11 | 12 | 13 | 14 | 15 | 16 -> 1 | 17 -> 2 | 41 -> 4 | 42 | 43 -> 7 | 18 -> 8 | 19 -> 9 | 21 -> 10 | 22 -> 11 | k -> k) |> z_of_int in
+        let kind = (match int_of_string (next ()) with 11 | 12 | 13 | 14 | 15 | 16 -> 1 | 17 -> 2 | 41 -> 4 | 42 | 43 -> 7 | 18 -> 8 | 19 -> 9 | 21 -> 10 | 22 -> 11 | 23 -> 12 | k -> k) |> z_of_int in
         let n = int_of_string (next ()) in
         let ents = List.init n (fun _ ->
           let b = z_of_string (next ()) in
